@@ -256,10 +256,10 @@ def body(chk):
                         'sources are valid UTF-8 of bounded length',
                         'export names of a validated component are valid component names (ComponentName::new succeeds)',
                         'whole-pipeline robustness (parser productions, resolver, the rest of the package decoder, encoder) is outside the claim']
-    chk.phase('Lexer::span'); part_span(chk, fns, decls)
-    chk.phase('detect_invalid_input'); part_screen(chk, fns, decls)
-    chk.phase('block_comment_length'); part_comment(chk, fns, decls)
-    chk.phase('Package::find_definitions'); part_find_definitions(chk)
+    chk.part('Lexer::span', part_span, chk, fns, decls)
+    chk.part('detect_invalid_input', part_screen, chk, fns, decls)
+    chk.part('block_comment_length', part_comment, chk, fns, decls)
+    chk.part('Package::find_definitions', part_find_definitions, chk)
 
 if __name__ == '__main__':
     harness.run_check('C14', body)
